@@ -1633,9 +1633,10 @@ def _a2_report(ck, a2):
     ck.coverage['real_process_runs'] = len(a2['results'])
     if a2['skipped']:
         ck.coverage['real_process_skipped'] = a2['skipped'].strip()
-        print('NOTE: C14 ******** real-process kill runs incomplete: '
-              f'{len(a2["results"])} done; {a2["skipped"].strip()} ********',
-              flush=True)
+        if ck.tier != 'quick' or len(a2['results']) < 2:
+            print('NOTE: C14 ******** real-process kill runs incomplete: '
+                  f'{len(a2["results"])} done; {a2["skipped"].strip()} ********',
+                  flush=True)
     for case, res in a2['results']:
         tag = f"{case['mode']}/{case['victim']}/{case['phase']}/" \
               f"{case.get('workload')}/{case.get('call')}" \
